@@ -282,9 +282,9 @@ func multinomial(calls []int) int {
 	return r
 }
 
-// TestRegressLockAllInterleavings enumerates all interleavings for every combination of two job
-// kinds (with and without a lock left behind) and for three jobs of selected kinds (all kinds in
-// the thorough tier)
+// TestRegressLockAllInterleavings enumerates all interleavings of the store calls for every
+// combination of two and three job kinds (with and without a lock left behind) and for selected
+// (thorough tier: all) combinations of four jobs
 func TestRegressLockAllInterleavings(t *testing.T) {
 	kinds := []string{jobPlain, jobForced, jobStale}
 	total := 0
@@ -295,21 +295,29 @@ func TestRegressLockAllInterleavings(t *testing.T) {
 			combos = append(combos, []string{a, b})
 		}
 	}
+	for _, a := range kinds {
+		for _, b := range kinds {
+			for _, c := range kinds {
+				combos = append(combos, []string{a, b, c})
+			}
+		}
+	}
 	if hx.Thorough() {
 		for _, a := range kinds {
 			for _, b := range kinds {
 				for _, c := range kinds {
-					combos = append(combos, []string{a, b, c})
+					for _, d := range kinds {
+						combos = append(combos, []string{a, b, c, d})
+					}
 				}
 			}
 		}
-		combos = append(combos, []string{jobPlain, jobPlain, jobPlain, jobPlain}, []string{jobPlain, jobForced, jobPlain, jobStale})
 	} else {
-		combos = append(combos, []string{jobPlain, jobPlain, jobPlain}, []string{jobPlain, jobForced, jobPlain}, []string{jobStale, jobPlain, jobForced})
+		combos = append(combos, []string{jobPlain, jobPlain, jobPlain, jobPlain}, []string{jobPlain, jobForced, jobPlain, jobStale})
 	}
 	for _, k := range combos {
 		for _, pre := range []bool{false, true} {
-			if pre && len(k) > 2 {
+			if pre && len(k) > 3 {
 				continue
 			}
 			n, ok := enumerate(t, k, pre)
